@@ -58,7 +58,8 @@ _MORE = {
     "C07": ("S1/S2 preserved by every primitive (symbolic label video) and the six node/edge user actions; pixel-exact write clauses; inverse restores the array bit for bit. "
             "Bounded: paint-driven UserUpdateSegmentation by seeded random strokes and by every rectangular stroke up to 2x3 on two fixtures (exhaustive).", "contract-based deductive verification over a symbolic label array + bounded stand-in (paint strokes)"),
     "C08": ("Invariant R (stored = RP(attr name, node's mask in its own frame, scale[1:])) for every active key preserved by every primitive and six user actions; "
-            "RegionpropsAnnotator.update proved to recompute exactly the active keys of exactly the action's node. Numeric formulas and bulk path: assumed skimage model + native oracle.",
+            "RegionpropsAnnotator.update proved to recompute exactly the active keys of exactly the action's node; the bulk path RegionpropsAnnotator.compute proved for every number of frames, regions and requested keys "
+            "(every labelled node gets the measurement of its own mask for every requested active key, nothing else changes). Numeric formulas: assumed skimage model + native oracle.",
             "contract-based deductive verification with uninterpreted measurements (congruence schema) + native numeric oracle"),
     "C09": ("Invariant Q (stored iou = IOU(mask of source in its frame, mask of target in its frame)) preserved by every primitive and six user actions; EdgeAnnotator.update "
             "proved for AddEdge and UpdateNodeSeg. Bulk path and numeric value: native oracle.", "contract-based deductive verification with uninterpreted IoU + native numeric oracle"),
